@@ -75,7 +75,7 @@ DECISION_KINDS = frozenset(["choice", "switch", "seam", "site", "fault", "op", "
 class EventLog:
     """Append-only log of a run.  Logging never draws and never reads a clock."""
 
-    def __init__(self, keep=4000):
+    def __init__(self, keep=int(__import__("os").environ.get("VERIF_TRACE_KEEP", "4000"))):
         self.events = []
         self.keep = keep
         self._dec = hashlib.sha256()
